@@ -74,7 +74,7 @@ func ruleC13(c *Ctx, r *Report) {
 					if g.Pkg != c.SPkg {
 						return // library constants/tables (e.g. encoding objects)
 					}
-					if allowedGlobal[g.Name()] {
+					if allowedGlobal[c.roleName(g)] {
 						return
 					}
 					if g.Name() == "RedactedFieldMapping" {
@@ -114,7 +114,7 @@ func ruleC13(c *Ctx, r *Report) {
 		r.Trivial("C13-R1", "RedactedFieldMapping:absent", "-", "no side table")
 	}
 	// replacement text is stored only by its setter (and init)
-	if g := c.GlobalVar("redactedString"); g != nil {
+	if g := c.GlobalByRole("redactedString"); g != nil {
 		okSt := true
 		for _, f := range c.SortedFuncs() {
 			allInstrs(f, func(i ssa.Instruction) {
@@ -232,7 +232,7 @@ func ruleC13(c *Ctx, r *Report) {
 	}
 	prefixOK := false
 	if u, ok := peel(args[0]).(*ssa.UnOp); ok {
-		if g, ok := u.X.(*ssa.Global); ok && g.Name() == "redactedString" {
+		if g, ok := u.X.(*ssa.Global); ok && c.roleName(g) == "redactedString" {
 			prefixOK = true
 		}
 	}
